@@ -3,7 +3,7 @@ CONSTANTS
     EpochOrderStrict = FALSE
     CacheSound = FALSE
     MaxAlter = 2
-    TamperFields = {"prev", "epoch", "avk", "params", "msgEpoch", "nextAvk", "nextParams", "sig", "kind"}
+    TamperFields = {"resign", "prev", "epoch", "avk", "params", "msgEpoch", "nextAvk", "nextParams", "sig", "kind"}
     ForgeEpochs = {1, 2, 3, 4}
     Forge2Pars = {"p"}
     ForgeKeys = {"H3", "H4", "A"}
